@@ -1,4 +1,4 @@
-import BV.Oracle
+import BV.OracleMain
 open BV
 
 /-- `bvspec`: the property side. Reads `oracle …` lines, prints verdicts. Independent of BV.Gen / BV.Model. -/
